@@ -571,6 +571,9 @@ class MachineGen:
         if kind == "machine":
             self.services[sname] = {"k": "machine", "ref": self.child_machine(sname)}
         inv = {"src": sname, "id": f"inv_{n.key}"}
+        if any(i["id"] == inv["id"] for i in self.info["invoke"]):
+            # hostile names repeat keys: two invokes that may be active together need distinct ids
+            inv["id"] = f"inv_{n.key}_{len(self.info['invoke']) + 1}"
         if p.get("p_shared_invoke_id") and self.info["invoke"] and rng.random() < p["p_shared_invoke_id"]:
             # two different states declaring the same explicit invoke id (e.g. `loading` and `retrying` both invoke "fetch");
             # only between siblings of a compound parent: two invokes that can be active at once must have distinct ids
